@@ -207,6 +207,22 @@ func firstDiff(a, b []byte) int {
 }
 
 // safeEncode runs the library encoder, converting a panic into an error.
+// observingWriter looks at the caller's value each time the encoder writes (up to budget times).
+type observingWriter struct {
+	look    func() bool
+	budget  int
+	writes  int
+	changed int // first write at which the value looked different
+}
+
+func (w *observingWriter) Write(p []byte) (int, error) {
+	w.writes++
+	if w.writes <= w.budget && w.changed == 0 && !w.look() {
+		w.changed = w.writes
+	}
+	return len(p), nil
+}
+
 func safeEncode(e *gen.Entry, v reflect.Value) (b []byte, err error, panicked bool) {
 	p, stack := stats.NoPanic(func() { b, err = e.Encode(v) })
 	if p != nil {
@@ -331,6 +347,31 @@ func checkValue(c Case) error {
 	}
 	if !bytes.Equal(enc, enc2) {
 		return stats.Failf(key("determinism"), "%s: two encodings of the same value differ at byte %d:\n %s\n %s", e.Name, firstDiff(enc, enc2), hx(enc), hx(enc2))
+	}
+
+	// (2b) encoding only reads: at every moment the encoder hands bytes on (an encoding longer than its buffer goes
+	// out in pieces), the value is the one that was passed in
+	if len(enc) > 1024 {
+		var et types.EncoderTo
+		if x, ok := v.Interface().(types.EncoderTo); ok {
+			et = x
+		} else {
+			p := reflect.New(e.Type)
+			p.Elem().Set(v)
+			et, _ = p.Interface().(types.EncoderTo)
+		}
+		if et != nil {
+			snap := gen.DumpJSON(v)
+			w := &observingWriter{look: func() bool { return bytes.Equal(gen.DumpJSON(v), snap) }, budget: 2}
+			if p, _ := stats.NoPanic(func() {
+				en := types.NewEncoder(w)
+				et.EncodeTo(en)
+				en.Flush()
+			}); p == nil && w.changed > 0 {
+				return stats.Failf(key("encode-modifies-value"), "%s: while EncodeTo was writing (write #%d of %d) the value was not the one passed in", e.Name, w.changed, w.writes)
+			}
+			rec.Label("observed-during-encoding")
+		}
 	}
 
 	// (5) layout
